@@ -90,6 +90,12 @@ def check(ctx, report):
             rk = '%s|%s|%s' % (fname, what, e.split('.')[-1])
             if rk in reviewed:
                 used_reviews.add(rk)
+                if rk in TABULATED:
+                    ok = TABULATED[rk](ctx, report, funcs.get(fname))
+                    if ok is True:
+                        continue            # decided by evaluation over the exhaustive membership domain
+                    if ok is False:
+                        continue            # reported by the tabulation
                 if reviewed_fact(rk, reviewed[rk], funcs, ctx):
                     continue
                 report.add('C02.R4', 'reviewed@' + rk, 'reviewed site changed shape: ' + reviewed[rk]['reason'])
@@ -128,6 +134,32 @@ def check(ctx, report):
     constructed_objects(ctx, report)
     report.floor('C02.R1', 300, 'concrete parsable classes')
     report.floor('C02.R4', 25, 'risky operation sites')
+
+
+_TAB_CACHE = {}
+
+
+def multi_directive_keys(ctx, report, f):
+    """KeyError out of FieldValueMultiple._parse_basic_params: decided by evaluating FieldValueMultiple._parse with its
+    helpers over every membership pattern of the dictionaries involved (sa.props.c18.multi_value_parse_tabulation).
+    True: no evaluated input raises KeyError; False: reported; None: not evaluable (the reviewed fact decides)"""
+    from .c18 import multi_value_parse_tabulation
+    if 'mv' not in _TAB_CACHE:
+        _TAB_CACHE['mv'] = multi_value_parse_tabulation(ctx, ctx.thorough)
+    runs, problems, unsupported = _TAB_CACHE['mv']
+    if unsupported is not None:
+        return None
+    report.count('C02.R4', runs)
+    hits = [d for k, d in problems if k == 'KeyError']
+    if hits:
+        report.add('C02.R4', '%s@escape[KeyError:key]' % (f.construct if f is not None else 'FieldValueMultiple._parse_basic_params'),
+                   'KeyError can escape a parse entry point: %d of %d evaluated combinations of attributes and directives, e.g. %s' % (
+                       len(hits), runs, hits[0][:300]))
+        return False
+    return True
+
+
+TABULATED = {'FieldValueMultiple._parse_basic_params|key|KeyError': multi_directive_keys}
 
 
 def reviewed_fact(rk, entry, funcs, ctx):
